@@ -308,3 +308,24 @@ Example ex_start_twice_sends_create_twice :
   let s := final init_st (ex_session ++ [ENew 100 1; EAddVar 0 1 1; EAddConfig 0; EStart 0]) in
   snd (fst (start s 0)) = [OWire 5 1 [6; 1; 17; 45; 1] [6; 1]] /\ c_pending (get (fst (fst (start s 0))) 0) = 2.
 Proof. vm_compute. split; reflexivity. Qed.
+
+(* ---------------------------------------------------------------- the protocol generation changes between sessions (wave 14) *)
+(* first session: firmware with protocol version < 4 (V1 messages, 8-bit indices); the same LogConfig is
+   added again after a reconnect to firmware with version >= 4 whose TOC gives the variable index 300 *)
+Definition ex_generation_history : list ev :=
+  [ERefresh false; EPacket 1 [5; 0; 0]; ESetToc [mkT 1 44 1];
+   ENew 100 1; EAddVar 0 1 1; EAddConfig 0; EStart 0; EPacket 1 [0; 1; 0]; EPacket 1 [3; 1; 0];
+   EStop 0; EPacket 1 [4; 1; 0]; EDelete 0; EPacket 1 [2; 1; 0]; ELinkDown;
+   ERefresh true; EPacket 1 [5; 0; 0]; ESetToc [mkT 1 300 1]; EAddConfig 0].
+
+Example ex_generation_follows_session :
+  (* first session: legacy create message (0, id, type, 8-bit index) *)
+  snd (fst (start (final init_st (firstn 6 ex_generation_history)) 0)) = [OWire 5 1 [0; 1; 17; 44] [0; 1]] /\
+  let s := final init_st ex_generation_history in
+  c_v2 (get s 0) = true /\ c_id (get s 0) = 2 /\
+  (* the re-added block is created with the V2 command and the 16-bit index of the current table *)
+  snd (fst (start s 0)) = [OWire 5 1 [6; 2; 17; 44; 1] [6; 2]] /\
+  (* bind-once (seeded/C05-n): the generation of the first session with the table of the second: the index does
+     not fit the legacy message, start() raises ValueError on an accepted configuration *)
+  create_msgs false (s_toc s) (c_id (get s 0)) (c_vars (get s 0)) = ([], Some ValueError).
+Proof. vm_compute. repeat split; reflexivity. Qed.
